@@ -70,6 +70,36 @@ func (s *Store) SavePeerState(peer *Peer) error {
 	})
 }
 
+// MarkPeerPolled records that the peer has just been polled. The record is
+// read and written inside one transaction, so a capability stored for the peer
+// since the caller loaded its copy is kept.
+func (s *Store) MarkPeerPolled(id PeerID) error {
+	return s.db.Update(func(tx *bolt.Tx) error {
+		bucket := tx.Bucket(pollBucketName)
+		if bucket == nil {
+			return errPollBucketMissing
+		}
+
+		key := []byte(id.String())
+		data := bucket.Get(key)
+		if data == nil {
+			return ErrPeerNotFound
+		}
+
+		record, err := unmarshalPeerRecord(key, data)
+		if err != nil {
+			return err
+		}
+		peer, err := record.toPeer(id.String())
+		if err != nil {
+			return fmt.Errorf("materialize peer %s: %w", id.String(), err)
+		}
+
+		peer.MarkAsPolled()
+		return persistPeer(bucket, key, peer)
+	})
+}
+
 // GetPeerState retrieves the stored state for a peer.
 func (s *Store) GetPeerState(id PeerID) (*Peer, error) {
 	var record peerRecord
